@@ -459,6 +459,8 @@ def rule_descriptor_ownership(ctx):
 
 
 def run(ctx):
+    from . import serial as _serial2
+    _serial2.rule_tree_predicate(ctx, 'R19.7')     # a served or restored snapshot of a linetree simulation gets its tree back
     from . import serial as _serial
     _serial.rule_R05_2(ctx)         # R05.2: a served snapshot carries every member under its own name
     from . import c01
